@@ -275,6 +275,34 @@ func slashGuard(repo string) bool {
 	return false
 }
 
+// IncreasePoolRewards: does a refused auto-compounding panic (inside BeginBlock) or is it run on a cache context
+func compoundSafe(repo string) bool {
+	f := parse(filepath.Join(repo, "x/multistaking/keeper/delegation.go"))
+	fd := findFunc(f, "IncreasePoolRewards")
+	if fd == nil {
+		die("multistaking Keeper.IncreasePoolRewards not found")
+	}
+	body := src(fd.Body)
+	tail := "err:=k.bankKeeper.SendCoinsFromModuleToAccount(ctx,authtypes.FeeCollectorName,delegator,autoCompoundRewards)"
+	deleg := "err=k.Delegate(ctx,&types.MsgDelegate{DelegatorAddress:delegator.String(),ValidatorAddress:pool.Validator,Amounts:autoCompoundRewards,})"
+	switch {
+	case strings.Contains(body, "cacheCtx,write:=ctx.CacheContext()iferr:=k.autocompoundRewards(cacheCtx,pool,delegator);err==nil{write()}"):
+		g := findFunc(f, "autocompoundRewards")
+		if g == nil {
+			die("autocompoundRewards not found")
+		}
+		b := src(g.Body)
+		if !strings.Contains(b, tail+"iferr!=nil{returnerr}"+deleg+"iferr!=nil{returnerr}") || strings.Contains(b, "panic(") {
+			die("autocompoundRewards: not the error-returning compounding the model has")
+		}
+		return true
+	case strings.Contains(body, tail+"iferr!=nil{panic(err)}"+deleg+"iferr!=nil{panic(err)}"):
+		return false
+	}
+	die("IncreasePoolRewards: unknown auto-compounding shape")
+	return false
+}
+
 func main() {
 	repo := flag.String("repo", "/repo", "repository root")
 	out := flag.String("out", "", "output .v file")
@@ -284,11 +312,12 @@ func main() {
 	so := signersOnly(*repo)
 	po, rr, br := undelegateFacts(*repo)
 	sr, sg := slashByRef(*repo), slashGuard(*repo)
+	cs := compoundSafe(*repo)
 	var b strings.Builder
 	b.WriteString("(* GENERATED by /verif/harness/cmd/gen_c10 from x/multistaking/keeper/msg_server.go (ClaimUndelegation),\n")
 	b.WriteString("   x/multistaking/keeper/delegation.go (Undelegate), x/multistaking/keeper/slash.go, app/app.go (slashing keeper wiring)\n   and x/distributor/keeper/abci.go (BeginBlocker, EndBlocker) -- do not edit *)\n")
 	b.WriteString("From Sekai Require Import Base.Prelude Model.Pools.\n")
-	b.WriteString(fmt.Sprintf("Definition tree_variant : variant := mkVariant %v %d %v %v %d %v %v %v.\n", oc, er, so, po, rr, br, sr, sg))
+	b.WriteString(fmt.Sprintf("Definition tree_variant : variant := mkVariant %v %d %v %v %d %v %v %v %v.\n", oc, er, so, po, rr, br, sr, sg, cs))
 	if *out == "" {
 		fmt.Print(b.String())
 		return
@@ -296,5 +325,5 @@ func main() {
 	if err := os.WriteFile(*out, []byte(b.String()), 0o644); err != nil {
 		die("%v", err)
 	}
-	fmt.Fprintf(os.Stderr, "gen_c10: owner_check=%v end_rule=%d signers_only=%v prefix_ok=%v redeem_rule=%d burn_registry=%v slash_byref=%v slash_guard=%v\n", oc, er, so, po, rr, br, sr, sg)
+	fmt.Fprintf(os.Stderr, "gen_c10: owner_check=%v end_rule=%d signers_only=%v prefix_ok=%v redeem_rule=%d burn_registry=%v slash_byref=%v slash_guard=%v compound_safe=%v\n", oc, er, so, po, rr, br, sr, sg, cs)
 }
